@@ -117,10 +117,15 @@ type vhandler struct {
 	opened          int32
 	closedN         int32
 	asyncWG         sync.WaitGroup
+	dupWG           sync.WaitGroup // delayed closes of Dup'ed descriptors (waited for after Run has returned)
 	areq            int64
 	bootAction      Action
-	stopFromTraffic int32 // conn id whose next OnTraffic returns Shutdown
-	pendingCb       int32 // asynchronous requests accepted with a callback that has not run yet
+	stopFromTraffic int32    // conn id whose next OnTraffic returns Shutdown
+	pendingCb       int32    // asynchronous requests accepted with a callback that has not run yet
+	wantTid         int32    // the next OnOpen records the OS thread it runs on (the loop's, with LockOSThread)
+	raceMode        bool     // recorder off, race detector on: plain per-loop words make overlapping callbacks a reported race
+	inCb            [512]int // per loop index, deliberately unsynchronised
+	loopTid         int32
 	dupMu           sync.Mutex
 	userDups        []int // descriptors obtained through Conn.Dup: ours to close
 }
@@ -170,6 +175,7 @@ func addrStr(a interface{ String() string }) string {
 }
 
 func (h *vhandler) OnOpen(c Conn) (out []byte, action Action) {
+	h.touch(c)
 	g := vsup.Goid()
 	raddr, laddr := "", ""
 	if c.RemoteAddr() != nil {
@@ -191,6 +197,9 @@ func (h *vhandler) OnOpen(c Conn) (out []byte, action Action) {
 		h.rec.emit("OpenUnknown", "h", hd, "g", g, "raddr", raddr, "laddr", laddr)
 		return nil, Close
 	}
+	if atomic.CompareAndSwapInt32(&h.wantTid, 1, 0) {
+		atomic.StoreInt32(&h.loopTid, int32(unix.Gettid()))
+	}
 	vc := &vconn{spec: sp, c: c, h: hd, rng: vsup.NewRng(sp.seed), lazyLeft: 3, floodGate: make(chan struct{})}
 	h.conns.Store(c, vc)
 	h.rec.emit("Open", "c", sp.id, "h", hd, "g", g, "raddr", raddr, "laddr", laddr, "fd", c.Fd(), "loop", c.(*conn).loop.idx)
@@ -207,6 +216,10 @@ func (h *vhandler) OnOpen(c Conn) (out []byte, action Action) {
 		h.rec.emit("WIssue", "c", sp.id, "op", "OnOpenOut", "w", 0, "k", vc.kOut, "len", len(f))
 		vc.kOut++
 		out = f
+	}
+	if h.raceMode {
+		h.asyncWG.Add(1)
+		go h.hammer(vc)
 	}
 	// asynchronous writers / wakers are user goroutines holding the Conn
 	if sp.asyncW > 0 || sp.wakes > 0 {
@@ -241,17 +254,20 @@ func (h *vhandler) OnOpen(c Conn) (out []byte, action Action) {
 func (h *vhandler) closeUserDups() { h.closeDups(false) }
 
 func (h *vhandler) closeDups(final bool) {
+	if final {
+		h.dupWG.Wait()
+	}
 	h.dupMu.Lock()
 	defer h.dupMu.Unlock()
-	h.conns.Range(func(_, v any) bool { // connections that never closed
-		if vc := v.(*vconn); vc.dupFd > 0 && !final {
+	if final { // connections that never closed (no callback is running any more)
+		h.conns.Range(func(_, v any) bool {
+			if vc := v.(*vconn); vc.dupFd > 0 {
+				h.userDups = append(h.userDups, vc.dupFd)
+				vc.dupFd = 0
+			}
 			return true
-		} else if vc.dupFd > 0 {
-			h.userDups = append(h.userDups, vc.dupFd)
-			vc.dupFd = 0
-		}
-		return true
-	})
+		})
+	}
 	for _, fd := range h.userDups {
 		var st unix.Stat_t
 		err := unix.Fstat(fd, &st)
@@ -259,6 +275,39 @@ func (h *vhandler) closeDups(final bool) {
 		_ = unix.Close(fd)
 	}
 	h.userDups = nil
+}
+
+// hammer calls the operations documented as concurrency-safe from a user goroutine while the loops run.
+func (h *vhandler) hammer(vc *vconn) {
+	defer h.asyncWG.Done()
+	rng := vsup.NewRng(vc.spec.seed * 77)
+	for i := 0; i < 30; i++ {
+		switch rng.Intn(9) {
+		case 0:
+			vc.c.SetSafeContext(i)
+		case 1:
+			_ = vc.c.SafeContext()
+		case 2:
+			_ = vc.c.Fd()
+		case 3:
+			if fd, err := vc.c.Dup(); err == nil {
+				_ = unix.Close(fd)
+			}
+		case 4:
+			_ = vc.c.SetNoDelay(true)
+		case 5:
+			_ = h.eng.CountConnections()
+		case 6:
+			_ = vc.c.EventLoop().Execute(context.Background(), RunnableFunc(func(context.Context) error { return nil }))
+		case 7:
+			_ = vc.c.Wake(nil)
+		case 8:
+			if fd, err := h.eng.Dup(); err == nil {
+				_ = unix.Close(fd)
+			}
+		}
+		time.Sleep(time.Duration(rng.Intn(200)) * time.Microsecond)
+	}
 }
 
 func (h *vhandler) newReq() int { return int(atomic.AddInt64(&h.areq, 1)) }
@@ -376,7 +425,15 @@ func (w *captureWriter) Write(p []byte) (int, error) {
 	return room, io.ErrShortWrite
 }
 
+func (h *vhandler) touch(c Conn) {
+	if h.raceMode {
+		h.inCb[(c.(*conn).loop.idx+256)%512]++
+	}
+}
+
 func (h *vhandler) OnTraffic(c Conn) Action {
+	h.touch(c)
+	defer h.touch(c)
 	g := vsup.Goid()
 	v, ok := h.conns.Load(c)
 	if !ok {
@@ -652,6 +709,7 @@ func (h *vhandler) writeOps(vc *vconn, c Conn) {
 }
 
 func (h *vhandler) OnClose(c Conn, err error) Action {
+	h.touch(c)
 	g := vsup.Goid()
 	v, ok := h.conns.Load(c)
 	if !ok {
@@ -670,9 +728,9 @@ func (h *vhandler) OnClose(c Conn, err error) Action {
 		vc.dupFd = 0
 		// keep it a little beyond the framework's own close of the connection (a duplicate that outlives
 		// the connection keeps the open file description, and with it any forgotten epoll registration, alive)
-		h.asyncWG.Add(1)
+		h.dupWG.Add(1)
 		go func() {
-			defer h.asyncWG.Done()
+			defer h.dupWG.Done()
 			time.Sleep(25 * time.Millisecond)
 			h.closeUserDups()
 		}()
